@@ -424,3 +424,54 @@ PROPS["C19"] = {
     "level_text": "Bounded model checking of the real Limiter/Recover code under a controlled scheduler (goroutines created inside the library, buffered-channel semaphore, WaitGroup, nested defer/recover): every schedule within the preemption bound, for every limit and panic pattern; concurrency bound, exactly-once execution, Wait semantics, handler delivery and slot release (as absence of deadlock) are checked on each.",
     "level_note": "Trusted: go/ssa, gosym scheduler. Violations are deterministic consequences of the panic pattern (slot leak -> deadlock, lost task) and are confirmed by running the harness natively under the real scheduler.",
 }
+
+# ------------------------------------------------------------------------------------------- C05 / C06
+c05 = "vh/c05."
+TR = {"MaxPaths": 80000000, "Witnesses": 6}
+PROPS["C05"] = {
+    "patterns": ["./c05"],
+    "level": "model_checking",
+    "quick": [
+        J(c05 + "Queries", npat=2, plen=2, tlen=2, letters=3, invalid=1, covers=["invalid byte in text", "several occurrences"], cfg=TR),
+        J(c05 + "Queries", npat=2, plen=2, tlen=3, letters=2, invalid=1, covers=["invalid byte in text", "several occurrences"], cfg=TR),
+        J(c05 + "Queries", npat=3, plen=1, lastlen=3, tlen=3, letters=2, invalid=0, cfg=TR),
+        J(c05 + "Prefix", npat=2, plen=2, klen=2, letters=4, cfg=TR),
+        J(c05 + "Prefix", npat=3, plen=2, klen=1, letters=3, cfg=TR),
+    ],
+    "thorough": [
+        J(c05 + "Queries", npat=2, plen=2, tlen=3, letters=3, invalid=1, covers=["invalid byte in text", "several occurrences"], cfg=TR),
+        J(c05 + "Queries", npat=2, plen=3, tlen=4, letters=3, invalid=1, covers=["invalid byte in text", "several occurrences"], cfg=TR),
+        J(c05 + "Queries", npat=3, plen=2, tlen=4, letters=2, invalid=1, cfg=TR),
+        J(c05 + "Prefix", npat=3, plen=3, klen=2, letters=3, cfg=TR),
+        J(c05 + "Prefix", npat=2, plen=3, klen=3, letters=4, cfg=TR),
+    ],
+    "bounds": {"quick": "alphabet of symbolic runes: one arbitrary 1-byte, 2-byte, 3-byte (U+FFFD included) and 4-byte rune; pattern sets: 2 patterns of 0..2 letters with texts of 0..2 letters over 3 letters / 0..3 letters over 2 letters, plus one arbitrary invalid byte at any position, and 3 patterns (two of <= 1 letter, one of 3) over 2 letters with texts <= 3 (nested, overlapping, duplicate and empty patterns all arise); PrefixSearch/FuzzySearch: 2 patterns <= 2 letters over 4 letters with keys <= 2, 3 patterns <= 2 over 3 letters with keys <= 1",
+               "thorough": "patterns up to 3 letters, texts up to 4, keys up to 3"},
+    "outside": ["patterns that are not valid UTF-8", "more than 3 patterns / longer strings", "completeness of FuzzySearch (the property only says its results are inserted patterns)"],
+    "assumptions": ["letters of different UTF-8 widths are different runes; the letter structure of patterns and texts is enumerated, the rune values and the invalid byte are symbolic"],
+    "level_text": "Bounded symbolic model checking of the real Aho-Corasick trie: pattern sets and texts are enumerated as letter sequences over a symbolic alphabet whose rune values (one per UTF-8 width, plus an arbitrary invalid byte) are decided by the solver, so width-dependent offsets, the U+FFFD/invalid-byte confusion and failure-link traversal are all covered; results are compared with naive occurrence enumeration.",
+    "level_note": "Trusted: go/ssa, gosym (witness-validated), z3; unicode/utf8 runs from its own SSA.",
+}
+PROPS["C06"] = {
+    "patterns": ["./c05"],
+    "level": "model_checking",
+    "quick": [
+        J(c05 + "Replace", npat=2, plen=2, tlen=3, letters=2, invalid=1, covers=["overlapping region"], cfg=TR),
+        J(c05 + "Replace", npat=2, plen=2, tlen=2, letters=3, invalid=1, covers=["overlapping region"], cfg=TR),
+        J(c05 + "Replace", npat=3, plen=1, lastlen=3, tlen=3, letters=2, invalid=0, covers=["overlapping region"], cfg=TR),
+        J(c05 + "Replace", npat=3, plen=1, lastlen=3, tlen=4, letters=2, invalid=0, covers=["overlapping region"], cfg=TR),
+    ],
+    "thorough": [
+        J(c05 + "Replace", npat=2, plen=2, tlen=3, letters=3, invalid=1, covers=["overlapping region"], cfg=TR),
+        J(c05 + "Replace", npat=3, plen=1, lastlen=3, tlen=4, letters=3, invalid=0, covers=["overlapping region"], cfg=TR),
+        J(c05 + "Replace", npat=2, plen=3, tlen=4, letters=3, invalid=1, covers=["overlapping region"], cfg=TR),
+        J(c05 + "Replace", npat=3, plen=2, lastlen=3, tlen=4, letters=2, invalid=0, covers=["overlapping region"], cfg=TR),
+        J(c05 + "Replace", npat=3, plen=1, lastlen=4, tlen=5, letters=3, invalid=0, covers=["overlapping region"], cfg=TR),
+    ],
+    "bounds": {"quick": "same symbolic alphabet as C05; 2 patterns <= 2 letters with texts <= 3 letters over 2 letters / <= 2 over 3 letters (+ one invalid byte); 3 patterns (two of <= 1 letter and one of exactly 3 letters: a long occurrence ending late that starts before earlier disjoint ones) with texts <= 4 over 2 letters; arbitrary mask rune; replacement = a byte outside the text alphabet",
+               "thorough": "patterns up to 3-4 letters, texts up to 5"},
+    "outside": ["replacement strings that can occur in the text (the parse of the output would be ambiguous)", "longer texts / more patterns"],
+    "assumptions": ["the replacement byte 0x01 does not occur in the text alphabet (1-byte letters are >= 0x20)"],
+    "level_text": "Bounded symbolic model checking of Replace/ReplaceWithMask against the coverage computed from naive occurrence enumeration, over the same symbolic alphabet as C05; totality (no panic) and exact rewriting are decided for every pattern set and text within the bound.",
+    "level_note": "Trusted: go/ssa, gosym (witness-validated), z3.",
+}
